@@ -55,11 +55,14 @@ def print_thm(th):
     typecheck.checkinstance('print_thm', th, Thm)
 
     turnstile = pprint.N("⊢") if settings.unicode else pprint.N("|-")
-    if th.hyps:
-        str_hyps = commas_join(print_term(hyp) for hyp in th.hyps)
-        return str_hyps + pprint.N(" ") + turnstile + pprint.N(" ") + print_term(th.prop)
-    else:
-        return turnstile + pprint.N(" ") + print_term(th.prop)
+    # A sequent is printed on one line: with a line length set, print_term
+    # returns a list of lines, which cannot be joined with the turnstile.
+    with global_setting(line_length=None):
+        if th.hyps:
+            str_hyps = commas_join(print_term(hyp) for hyp in th.hyps)
+            return str_hyps + pprint.N(" ") + turnstile + pprint.N(" ") + print_term(th.prop)
+        else:
+            return turnstile + pprint.N(" ") + print_term(th.prop)
 
 def print_extension(ext):
     typecheck.checkinstance('print_extension', ext, extension.Extension)
